@@ -101,8 +101,11 @@ def pending_fall(ch) -> int:
     end = ch.end
     for s in reversed(ch.slots):
         if s.kind == "pulse":
-            if s.in_eom != s.cur_eom and end >= s.tf + s.fall_own:
-                return end  # played in the other mode and already at rest by the bandwidth it was played with
+            if not s.in_eom and s.cur_eom and end >= s.tf + s.fall_own:
+                # a standard pulse seen from inside an EOM block: already at rest by the bandwidth it was played with.  (The reverse - idle
+                # time of a CLOSED block seen from standard mode - is judged by the channel's own fall time, as the default buffer of
+                # disable_eom_mode is; a device's shorter custom buffer leaves that fall time pending.)
+                return end
             return max(end, s.tf + s.fall_cur)
     return end
 
